@@ -363,6 +363,20 @@ def bounded(pr):
                 cols.append(l)
             yield 'random serial/occupancy/B/segment/element/charge columns', cols, []
             yield '--protonate-all', base, ['--protonate-all']
+        # hydrogens present in the input have no effect (default options): amino-acid records without TER lines, hydrogens (moved off
+        # the ideal positions) listed at the end of each residue - also after OXT - against the same records without hydrogens
+        aa = [l for l in base if l[:6] == 'ATOM  ']
+        if name in ('3SGB-subset', '1HPX', '3SGB'):
+            ev += 1
+            classes.add('hydrogen records, default options')
+            try:
+                d = native.diff_records(native.record(native.run_text(aa)),
+                                        native.record(native.run_text(native.with_own_hydrogens(aa, perturb=0.2, at_residue_end=True))), tol=1e-9)
+            except Exception as e:    # noqa
+                d = ['%s: %s' % (type(e).__name__, e)]
+            if d and len(viol) < 3:
+                viol.append({'what': '%s (ATOM records, no TER) with hydrogen records at the end of every residue, default options: %s'
+                                     % (name, d[:2]), 'replay': None})
         for what, lines, opts in edits():
             ev += 1
             classes.add(what)
